@@ -47,7 +47,7 @@ type vc02FaultDS struct {
 
 	mu       sync.Mutex
 	failAt   map[int]bool
-	failQ    map[int]bool // 1-based indices of the element queries (set.Rmv / InSet) that return an error; only from a given input
+	failQ    map[int]bool // 1-based indices of the element queries (set.Rmv / InSet) that return an error
 	nQuery   int
 	nCounted int
 	lastFail string   // kind of the last failed commit ("tombs" | "elems" | "heads"), reset by the caller
@@ -194,6 +194,7 @@ type vc02Gate struct {
 	inCall    bool
 	cur       int
 	expect    bool // size limit reached, commit must follow
+	failedSinceCommit bool // an Add/Rm returned an error since the last commit call
 }
 
 type vc02CtxKey struct{}
@@ -235,6 +236,8 @@ func (g *vc02Gate) exit(ev *vc02Ev, err error) {
 		if g.cur >= g.size {
 			g.expect = true
 		}
+	} else {
+		g.failedSinceCommit = true
 	}
 	g.mu.Unlock()
 }
@@ -280,6 +283,7 @@ func (g *vc02Gate) Commit(ctx context.Context) error {
 	g.trace = append(g.trace, ev)
 	g.inCall = true
 	g.expect = false
+	g.failedSinceCommit = false
 	g.mu.Unlock()
 	g.fds.resetLastFail()
 	err := g.guarded(ev, "batchingState.Commit", func() error { return g.BatchingState.Commit(ctx) })
